@@ -496,6 +496,11 @@ def _go_routes():
     add('Bus.from_frames((FrameGO,))', lambda src: sf.Bus.from_frames((src['fgo'].rename('g'),))['g'], 'fgo')
     add('FrameGO.set_index().to_frame()', lambda src: src['fgo'].set_index(src['fgo'].columns.iloc[0]).to_frame(), 'fgo')
     add('FrameGO.T.T (transpose twice)', lambda src: src['fgo'].transpose().transpose().to_frame(), 'fgo')
+    # static indices made of a grow-only frame's columns (every column, through a null slice, a list and an open slice; one column)
+    add('FrameGO.set_index_hierarchy(slice(None)).index', lambda src: src['fgo'].set_index_hierarchy(slice(None)).index, 'fgo')
+    add('FrameGO.set_index_hierarchy(slice(None), drop=True).index', lambda src: src['fgo'].set_index_hierarchy(slice(None), drop=True).index, 'fgo')
+    add('FrameGO.set_index_hierarchy(list(columns)).index', lambda src: src['fgo'].set_index_hierarchy(list(src['fgo'].columns)).index, 'fgo')
+    add('FrameGO.set_index(first column).index', lambda src: src['fgo'].set_index(src['fgo'].columns.iloc[0]).index, 'fgo')
     return R
 
 
